@@ -123,7 +123,7 @@ static int Record(const vh::Args& args) {
                 {"inter", Ordered(x.B().Intersect(y.B()))}, {"diff", Ordered(x.B().Diff(y.B()))}, {"sym", Ordered(x.B().SymDiff(y.B()))} };
     json memb = json::array(); for (const auto& el : y.B()) memb.push_back(x.B().Contains(el)); ev["memb"] = memb;
     { auto copy = x; auto before = Ordered(x); copy.ModifyB().AddElement(y); ev["copyIntact"] = (Ordered(x) == before) && (Ordered(x) == ev["items"]); }
-    out << ev.dump() << "\n"; ++rep.cases;
+    out << ev.dump() << std::endl; ++rep.cases;
   }
   rep.counters["events"] = n;
   rep.Write(args.get("out"));
@@ -131,6 +131,6 @@ static int Record(const vh::Args& args) {
 }
 
 int main(int argc, char** argv) {
-  { vh::Args args(argc, argv); if (args.has("record")) return Record(args); }
+  { vh::Args args(argc, argv); if (args.has("record")) return vh::RunRecorder(args.get("trace"), args.get("out"), [&]() { return Record(args); }); }
   return vh::Main(argc, argv, Handle);
 }
